@@ -148,6 +148,7 @@ func (c *Cache) refresh() error {
 		conflicts  = map[string]struct{}{}
 		specErrors = map[string][]error{}
 	)
+	verifPoint("refresh.begin", "", 0)
 
 	// collect errors per spec file path and once globally
 	collectError := func(err error, paths ...string) {
@@ -200,8 +201,11 @@ func (c *Cache) refresh() error {
 	}
 
 	c.specs = specs
+	verifPoint("refresh.swap", "", 1)
 	c.devices = devices
+	verifPoint("refresh.swap", "", 2)
 	c.errors = specErrors
+	verifPoint("refresh.end", "", len(devices))
 
 	errs := []error{}
 	for _, specErrs := range specErrors {
@@ -543,6 +547,7 @@ func (w *watch) watch(fsw *fsnotify.Watcher, m *sync.Mutex, refresh func() error
 			if !ok {
 				return
 			}
+			verifPoint("watch.event", event.Name, int(event.Op))
 
 			if (event.Op & eventMask) == 0 {
 				continue
